@@ -6,6 +6,12 @@ Three things are read from the source text:
   * the `match self` arms of `impl Display for CompressionType`   (variant -> printed name),
   * the `match raw` arms of `impl FromStr for CompressionType`     (accepted text -> variant).
 Variants are numbered by declaration order in the Lean tables (string literals do not reduce in the kernel).
+
+Two more facts about variants are read for the read side (C12 / C05, Model/PkgFiles.lean, Model/Accessors.lean):
+  * src/rpm/package.rs `get_payload_compressor`: the variant answered when RPMTAG_PAYLOADCOMPRESSOR is absent
+    (`if matches!(e, Error::TagNotFound(_)) { Ok(CompressionType::<V>) }`)            -> `payloadCompressorDefault`
+  * src/rpm/compressor.rs `decompress_stream`: the variants whose arm hands the reader back unchanged
+    (`CompressionType::<V> => Ok(Box::new(reader))`)                                  -> `decompressIdentity`
 """
 import re
 from .common import read, emit, rust_str, natlist, degraded
@@ -86,5 +92,43 @@ def generate():
     body += "/-- (text accepted by `impl FromStr`, variant index) in source order; anything else is `Err(UnknownCompressorType)` -/\n"
     body += "def compressionFromStr : List (List Nat × Nat) := [\n"
     body += ",\n".join(f"  ({natlist(s)}, {v})  /- \"{s}\" {variants[v]} -/" for s, v in fromstr) + "]\n"
+    # --- read side: default variant of get_payload_compressor, identity arm(s) of decompress_stream
+    pkg = read("src/rpm/package.rs")
+    default = None
+    gp = _block(pkg, r"pub\s+fn\s+get_payload_compressor\s*\([^)]*\)\s*->\s*Result<\s*CompressionType\s*,\s*Error\s*>\s*\{")
+    if gp is None:
+        degraded.append(("CompressionNames", "fn get_payload_compressor not found in src/rpm/package.rs"))
+    else:
+        m = re.findall(r"if\s+matches!\(\s*e\s*,\s*Error::TagNotFound\(_\)\s*\)\s*\{\s*Ok\(\s*CompressionType::(\w+)\s*\)\s*\}\s*else\s*\{\s*Err\(e\)\s*\}", gp)
+        oks = re.findall(r"Ok\(\s*CompressionType::(\w+)\s*\)", gp)
+        if len(m) == 1 and len(oks) == 1 and m[0] in idx and "CompressionType::from_str" in gp:
+            default = idx[m[0]]
+        else:
+            degraded.append(("CompressionNames", f"get_payload_compressor: TagNotFound arm not understood ({m!r}, {oks!r})"))
+    ident = []
+    ds = _block(src, r"fn\s+decompress_stream\s*\(")
+    # `_block` gives the first brace block after the header, which is the function body (the signature has no braces)
+    if ds is None:
+        degraded.append(("CompressionNames", "fn decompress_stream not found"))
+    else:
+        arms = re.findall(r"CompressionType::(\w+)\s*=>\s*Ok\(\s*Box::new\(\s*([^;{}]*?)\s*\)\s*\)\s*,", ds)
+        understood = 0
+        for v, expr in arms:
+            if v not in idx:
+                degraded.append(("CompressionNames", f"decompress_stream arm for unknown variant {v}"))
+                continue
+            understood += 1
+            if re.fullmatch(r"reader", expr):
+                ident.append(idx[v])
+        # every variant arm must have been seen (the remaining arrow is the `_ => Err(UnsupportedCompressorType)` fall-through)
+        if understood != len(variants) or len(re.findall(r"=>", ds)) != len(variants) + 1:
+            degraded.append(("CompressionNames", f"decompress_stream: {len(re.findall(r'=>', ds))} arms, {understood} understood"))
+        if not ident:
+            degraded.append(("CompressionNames", "decompress_stream: no arm returns the reader unchanged"))
+    body += "/-- `get_payload_compressor` (src/rpm/package.rs): the variant answered when RPMTAG_PAYLOADCOMPRESSOR is absent"
+    body += (f" (`CompressionType::{variants[default]}`) -/\n" if default is not None else " — NOT FOUND in the source -/\n")
+    body += f"def payloadCompressorDefault : Nat := {default if default is not None else len(variants)}\n"
+    body += "/-- `decompress_stream` (src/rpm/compressor.rs): the variants whose arm is `Ok(Box::new(reader))` — the payload IS the archive -/\n"
+    body += "def decompressIdentity : List Nat := [" + ", ".join(str(i) for i in ident) + "]\n"
     body += "end RpmVerif.Gen\n"
     emit("CompressionNames", body)
